@@ -12,6 +12,7 @@ def instances(tier, rng):
     cyc = vlib.universe("cyc", 3, maxe=9, k=2, w=2, l=1, cap=6)
     cyc4 = vlib.universe("cyc", 4, maxe=6, k=2, w=2, l=1, cap=4)
     us = C.spread(cyc, 36 if quick else 72) + C.spread(cyc4, 110 if quick else 1500)
+    us = us + C.spread(C.motifs()[1], 10 if quick else 30)
     insts, scal = [], []
     g = 0
     for u in us:
